@@ -55,6 +55,80 @@ func runC08(c *Ctx) {
 	c.rule("C08-R12", "PAIR (whole module): a struct that keeps the same objects in two containers (maps/slices with one element type *T) changes them together: every function that inserts into, deletes from or replaces one does so for the other - otherwise requests served through one container see objects the other no longer knows (stale sessions, evicted cache entries, removed connections)")
 	c.Sites["C08-R12#sibling-container-pairs"] = siblingIndexAudit(c, "C08-R12", c.modulePkgs())
 	c.ob("C08-R12", "module#sibling-containers-examined", token.NoPos, true, "")
+	// ---- R13 the walk-up assignment stops below the module scope
+	c.rule("C08-R13", "GRD: every request's scope chain ends in the one module-level environment (NewChildEnvironment(Interpreter.globalEnv)), and Environment.Set writes into whichever scope up the chain holds the name. So in pkg/interpreter every call of Environment.Set, and every in-place update of an object fetched with Environment.Get, lies behind a condition that consults Interpreter.globalEnv (the binding is found below the module scope, or the code runs in the module scope itself): otherwise `$ LIMIT = LIMIT + 1` in a route changes the module's constant for every later request, `$ helper = 5` replaces a function for all of them, and two requests doing so at once are a fatal concurrent map write")
+	{
+		var loadsGlobal func(f *ssa.Function, d int) bool
+		loadsGlobal = func(f *ssa.Function, d int) bool {
+			if f == nil || d > 2 || len(f.Blocks) == 0 {
+				return false
+			}
+			r := false
+			eachInstr(f, func(_ *ssa.BasicBlock, _ int, ins ssa.Instruction) {
+				if u, ok := ins.(*ssa.UnOp); ok && loadedFromField(u, "Interpreter", "globalEnv") {
+					r = true
+				}
+				if cl, ok := ins.(*ssa.Call); ok && !r {
+					if sf := staticFn(cl); sf != nil && sf.Pkg == f.Pkg && sf != f {
+						r = loadsGlobal(sf, d+1)
+					}
+				}
+			})
+			return r
+		}
+		consults := func(x ssa.Instruction) bool {
+			iff, ok := x.(*ssa.If)
+			if !ok {
+				return false
+			}
+			return derivesFrom(iff.Cond, func(v ssa.Value) bool {
+				if loadedFromField(v, "Interpreter", "globalEnv") {
+					return true
+				}
+				if cl, ok := v.(*ssa.Call); ok {
+					if sf := staticFn(cl); sf != nil && sf.Pkg != nil && sf.Pkg.Pkg.Path() == interpPath {
+						if bt, ok := cl.Type().Underlying().(*types.Basic); ok && bt.Kind() == types.Bool {
+							return loadsGlobal(sf, 0)
+						}
+					}
+				}
+				return false
+			})
+		}
+		n := 0
+		for _, fn := range c.srcFuncs(interpPkg) {
+			if strings.HasSuffix(c.Fset.Position(fn.Pos()).Filename, "/environment.go") {
+				continue
+			}
+			k := 0
+			eachInstr(fn, func(_ *ssa.BasicBlock, _ int, ins ssa.Instruction) {
+				what := ""
+				switch x := ins.(type) {
+				case *ssa.Call:
+					if callName(x) == interpPath+".Environment.Set" {
+						what = "walk-up assignment"
+					}
+				case *ssa.MapUpdate:
+					if derivesFrom(x.Map, func(v ssa.Value) bool {
+						cl, ok := v.(*ssa.Call)
+						return ok && callName(cl) == interpPath+".Environment.Get"
+					}) {
+						what = "in-place update of an object fetched from the scope chain"
+					}
+				}
+				if what == "" {
+					return
+				}
+				k++
+				n++
+				q := &pathQuery{fn: fn, stop: consults, target: func(y ssa.Instruction) bool { return y == ins }}
+				hit, path := q.fromEntry()
+				c.ob("C08-R13", fnKey(fn)+"#write-stays-below-the-module-scope-"+itoa(k), ins.Pos(), hit == nil, "a "+what+" is reachable without any test against the module-level environment: code running for one request rewrites a binding (or an object) of the scope shared by all requests - a constant changes for every later request, a function is replaced by a number, concurrent requests race on the map", c.blockPath(path)...)
+			})
+		}
+		c.Sites["C08-R13#scope-chain-writes"] = n
+		c.floor("C08-R13", 2)
+	}
 	// ---- R1 shared write-set
 	c.rule("C08-R1", "WRS: no function of pkg/interpreter reachable from a request root stores to, updates a map of, or atomically modifies a field of the shared Interpreter / TypeChecker / ModuleResolver objects, defines or sets variables in Interpreter.globalEnv, or writes a package-level variable, unless a mutex of the owning object is held at that point")
 	roots := []string{"Interpreter.ExecuteRoute", "Interpreter.ExecuteCommand", "Interpreter.ExecuteEventHandler", "Interpreter.ExecuteQueueWorker"}
